@@ -27,6 +27,9 @@ Case(f, is) == [fault |-> f, invs |-> is, init |-> 0]
 CaseI(n, is) == [fault |-> "none", invs |-> is, init |-> n]
 Core == {
   Case("badmode", <<>>), Case("noendpoint", <<>>), Case("badcompression", <<>>),
+  \* failures no configuration of the real server produces, from a stand-in server behind the same manager: an ordinary error, errors
+  \* whose chain holds a context error although the extension's own context is alive, and a server that just returns
+  Case("plainerr", <<>>), Case("deadline", <<>>), Case("canceled", <<>>), Case("earlynil", <<>>),
   Case("none", <<>>),
   CaseI(2, <<>>), CaseI(1, <<Inv(1, 1, "ok", 0)>>), CaseI(2, <<Inv(0, 3, "slow", 0), Inv(1, 1, "ok", 0)>>),
   Case("none", <<Inv(2, 1, "ok", 0)>>),
